@@ -49,6 +49,18 @@ CHECKS = {
    text="Seeded search over advertisement lists from up to 4 holders (single-key and multi-key, overlapping, differing versions), completions, early completions, range and fullness updates and timer expiries against the real ReplicationFetcher in simulated time (deadlines aged through the guarded age hook), checked call by call against a queue/in-flight model: no fetch of a held version, range and farthest limits, no duplicate in-flight entry, parallel-fetch cap, closest-first, exits from the in-flight set, timeout reporting, and bounded liveness once faults stop.",
    note="Trusted: age(d) on all stored Instant deadlines is observationally the clock advancing by d (deadlines kept >= 2.5 s from now, runs < 1 s real time); distances recomputed independently; where hash order decides between equal candidates the model adopts the observed choice.",
    technique="deterministic simulation: simulated time and holders against the real fetcher, queue/in-flight model oracle with bounded-liveness rounds"),
+ "C18": dict(sim="bootcache", level="exploration", ref="5 C18",
+   text="Seeded search over 1-4 'processes', each a real BootstrapCacheStore on its own OS thread sharing one cache file; flusher threads park at guarded gates between the steps of sync_and_flush_to_disk / write and the simulator releases exactly one at a time (or abandons one = crash, re-creating the named temp file a kill would leave). Operations: add_addr in all address shapes, status updates, removals, clean-ups, flushes with and without clean-up, crafted files with last_seen placed >= 61 s either side of the expiry boundary, limits 1-5 peers / 1-3 addrs. Faults: truncated / bit-flipped / empty / wrong-schema / other-network files, future-dated stamps, killed writers; if a commit left the inode unchanged every prefix of the new content is loaded as a crash state. After every atomic action the real load is compared with an independent reader and the bounds / well-formedness / merge / atomic-replace rules are checked.",
+   note="Trusted: real threads are released one at a time through a condvar handshake (no sleeps decide outcomes); wall-clock stamps kept away from boundaries; a run is re-executed when preemption inside the clock-sensitive trim loop exceeded the stamp gap.",
+   technique="deterministic simulation: gate-scheduled interleaving of real flusher threads on one file, file-corruption and crash faults, bounds/merge/atomic-replace model"),
+ "C19": dict(sim="services", level="exploration", ref="5 C19",
+   text="Seeded search over sequences of antctl invocations (add, start, stop, remove, upgrade, status), each mirrored step by step from cmd/node.rs as a fresh 'process' (NodeRegistry::load, refresh, real add_node / ServiceManager operation, save) over a simulated OS implementing ServiceControl and RpcActions (installed definitions, process table, port allocators); the n-th OS/RPC call of an operation fails with an error the real implementation can return (one chosen step per plan has every failing-call index enumerated), external events (process death, manual uninstall) and registry-file corruption happen between steps. After every invocation the registry file is checked against the simulated OS.",
+   note="Trusted: the antctl glue in cmd/node.rs hard-wires the real ServiceController/RpcClient and is mirrored, not run; std::thread::sleep waits are behind the trait (simulated time).",
+   technique="deterministic simulation: simulated OS / RPC with failing-call injection under the real service-management code, registry-vs-OS oracle"),
+ "C20": dict(sim="services", level="exploration", ref="5 C20",
+   text="Inside the C19 simulator, option vectors antctl's own command line accepts go through add -> [start -> stop] -> upgrade across process boundaries (saved registry), with and without injected failures; the simulated OS records the ServiceInstallCtx at install and upgrade; program, user, env, autostart, working dir and the parsed meaning of the argument lists (obtained by running the real antnode binary with a guarded print-and-exit hook) must be equal except where the lifecycle changes something explicitly (port pinned after a start), and the installed meaning must equal the intended configuration derived independently from the option vector.",
+   note="Trusted: as C19; the hooked antnode binary is built from /repo's working tree by the check.",
+   technique="deterministic simulation: persisted lifecycle under a simulated OS, translation check of argument lists through the real antnode parser"),
 }
 
 NOT_APPLICABLE = {
